@@ -114,7 +114,7 @@ def evJ : Ev → Json
   | .inject i k => jarr [jstr "inject", jnat i, jstr (ofChars k)]
 
 def worldJ (w : World) : List (String × Json) :=
-  [("events", jarr (w.events.map evJ)),
+  [("events", jarr (w.events.map evJ)), ("rc_leak", jnat w.rcLeak),
    ("residue", Json.mkObj [
       ("component_context_cache", jnat w.ctxCache.length),
       ("component_renderer_cache", jnat w.rendererCache.length),
@@ -135,7 +135,6 @@ def envOf (j : Json) : Except String (Env × Nat) := do
   let maxInst := (getNat j "maxinst").toOption.getD 150
   pure ({ isolated := ← getBool j "isolated", lib, raiseAt, maxInst }, fuel)
 
-def rootCtx (vars : List (Str × Val)) : Ctx := rebase [[], vars]
 
 def runEntry (env : Env) (fuel : Nat) (j : Json) (w : World) : Except String (Except Err (List Tok) × World) := do
   let vars ← kvValsOf (← getArr j "ctx")
